@@ -1005,6 +1005,10 @@ class AtLeast(puan.Proposition):
         if not self.generated_id:
             d['id'] = self.id
 
+        if self.__class__ == AtLeast and self.sign != (puan.Sign.POSITIVE if self.value > 0 else puan.Sign.NEGATIVE):
+            # sign cannot be derived from value, so it must be kept
+            d['sign'] = int(self.sign)
+
         return d
 
     def to_b64(self, str_decoding: str = 'utf8') -> str:
@@ -1059,7 +1063,8 @@ class AtLeast(puan.Proposition):
         return AtLeast(
             value=data.get('value', 1),
             propositions=list(map(functools.partial(from_json, class_map=class_map), propositions)),
-            variable=data.get('id', None)
+            variable=data.get('id', None),
+            sign=data.get('sign', None),
         )
 
     @staticmethod
